@@ -23,6 +23,10 @@ void name_fd(int fd, std::string const &name);
 // create a worker; it does not run before run() schedules it.  Returns its ordinal (0, 1, ...)
 int spawn(std::string const &name, std::function<void()> body);
 
+// run `fn` on worker `id`'s own thread when it reaches its k-th scheduling point (k >= 1), before the
+// call that constitutes that point: simulates a signal handler interrupting the thread there
+void inject_at(int id, int k, std::function<void()> fn);
+
 // append an event line to the trace on behalf of the running worker (no scheduling point)
 void mark(std::string const &text);
 
